@@ -9,6 +9,7 @@ import Swim.Drv.C09
 import Swim.Drv.C19
 import Swim.Drv.C03
 import Swim.Drv.Sim
+import Swim.Drv.Cluster
 /-! Line-protocol driver: `<PROP> <kind> k=v ...` in, `<PROP> <id> <agree|DISAGREE> <ok|BAD:..> ...` out. -/
 open Swim.Parse
 
@@ -21,8 +22,8 @@ def dispatch (line : String) : String :=
     let body := match prop with
       | "C17" => Swim.Drv.C17.handle kind fs
       | "C03" => Swim.Drv.C03.handle kind fs
-      | "C04" => Swim.Drv.Sim.handleC04 kind fs
-      | "C05" => Swim.Drv.Sim.handleC05 kind fs
+      | "C04" => if kind == "cluster" then Swim.Drv.Cluster.handleCluster fs else Swim.Drv.Sim.handleC04 kind fs
+      | "C05" => if kind == "cluster" then Swim.Drv.Cluster.handleCluster fs else Swim.Drv.Sim.handleC05 kind fs
       | "C20" => Swim.Drv.Sim.handleC20 kind fs
       | "C09" => Swim.Drv.C09.handle kind fs
       | "C10" => Swim.Drv.C10.handle kind fs
